@@ -423,6 +423,23 @@ def _ew(f, a, b=None):
 
 
 class Folder:
+    def _flush_shared(self):
+        """inside a closure that mutates enclosing variables: hand their current values to the defining environment before
+        another local function is called (it reads them there)"""
+        home = self.names.get("__kv_home__")
+        if isinstance(home, dict):
+            for n_ in self.names.get("__kv_shared__", ()):
+                if n_ in self.names:
+                    home[n_] = self.names[n_]
+
+    def _refresh_shared(self):
+        """... and take them back afterwards"""
+        home = self.names.get("__kv_home__")
+        if isinstance(home, dict):
+            for n_ in self.names.get("__kv_shared__", ()):
+                if n_ in home:
+                    self.names[n_] = home[n_]
+
     def __init__(self, names: Optional[Dict[str, Any]] = None, attrs: Optional[Dict[str, Any]] = None, decide: Optional[Callable[[ast.expr], Optional[bool]]] = None):
         self.names = dict(names or {})
         self.attrs = dict(attrs or {})
@@ -952,7 +969,8 @@ class Folder:
                         raise Unfoldable(f"local function {node.func.id} sees one object under two names (aliasing is not modelled)")
                 if len(set(back_.values())) != len(back_) or set(back_.values()) & shared_outer_:
                     raise Unfoldable(f"local function {node.func.id}: one variable reaches it twice (aliasing is not modelled)")
-                if isinstance(fd_, ast.Lambda) or any(n_ not in self.names for n_ in shared_outer_) or not (shared_outer_ or back_):
+                home0_ = getattr(fd_, "_kv_env", None) if isinstance(getattr(fd_, "_kv_env", None), dict) else self.names
+                if isinstance(fd_, ast.Lambda) or any(n_ not in home0_ for n_ in shared_outer_) or not (shared_outer_ or back_):
                     raise Unfoldable(f"local function {node.func.id} modifies its arguments (aliasing is not modelled)")
             argv = [self.fold(a) for a in node.args]
             params_ = [a.arg for a in fd_.args.args]
@@ -965,8 +983,12 @@ class Folder:
                     raise Unfoldable("parameter shadows a mutated enclosing variable")
                 from .frag import FragReturn, run_fragment
 
-                sub_env_ = dict(self.names)
+                home_ = getattr(fd_, "_kv_env", None)
+                home_ = home_ if isinstance(home_, dict) else self.names
+                self._flush_shared()
+                sub_env_ = dict(home_)
                 sub_env_.update(zip(params_, argv))
+                sub_env_["__kv_home__"], sub_env_["__kv_shared__"] = home_, frozenset(shared_outer_)
                 val_ = None
                 try:
                     run_fragment(fd_.body, sub_env_, self.attrs, funcs=self.funcs, materialise=self.materialise, ctors=self.ctors, attrs_live=True, share_env=True)
@@ -975,7 +997,8 @@ class Folder:
                 for n_ in shared_outer_:
                     if n_ not in sub_env_:
                         raise Unfoldable(f"enclosing variable {n_} lost its value inside {node.func.id}")
-                    self.names[n_] = sub_env_[n_]
+                    home_[n_] = sub_env_[n_]
+                self._refresh_shared()
                 for pm_, an_ in back_.items():
                     if pm_ not in sub_env_:
                         raise Unfoldable(f"argument {pm_} lost its value inside {node.func.id}")
@@ -987,9 +1010,16 @@ class Folder:
                 return sub.fold(fd_.body)
             from .frag import FragReturn, run_fragment
 
+            home1_ = getattr(fd_, "_kv_env", None)
+            home1_ = home1_ if isinstance(home1_, dict) else self.names
+            self._flush_shared()
+            env1_ = dict(home1_, **dict(zip(params_, argv)))
+            env1_.pop("__kv_home__", None)
+            env1_.pop("__kv_shared__", None)
             try:
-                run_fragment(fd_.body, dict(self.names, **dict(zip(params_, argv))), self.attrs, funcs=self.funcs, materialise=self.materialise, ctors=self.ctors, attrs_live=True)
+                run_fragment(fd_.body, env1_, self.attrs, funcs=self.funcs, materialise=self.materialise, ctors=self.ctors, attrs_live=True)
             except FragReturn as r_:
+                self._refresh_shared()
                 return r_.value
             raise Unfoldable("local function returns nothing")
         if isinstance(node, ast.Call) and isinstance(node.func, ast.Attribute) and not node.keywords and not node.func.attr.startswith("_"):
